@@ -35,8 +35,9 @@ import (
 type Obj struct {
 	Oid          string
 	Size         int64
-	Adds         int  // how many times it is added
-	MissingLocal bool // upload only: local file absent and Add(missing=true)
+	Adds         int   // how many times it is added
+	MissingLocal bool  // upload only: local file absent and Add(missing=true)
+	DataSeed     int64 // real-adapter cases: the object's bytes are Content(DataSeed, Size) and Oid is their SHA-256
 }
 
 // Case is a fully determined scenario (generated from seed and index).
@@ -62,11 +63,18 @@ type Case struct {
 	// Adapter[oid][k] = outcome of the k-th adapter attempt: "ok" (default), "retry", "fatal", "later:<secs>", "422"
 	Adapter    map[string][]string
 	BeginError bool
-	YieldSeed  uint64
-	YieldPm    uint64
-	AddGapUs   int // producer pause between adds (microseconds), 0 = none
-	RetryScale float64
-	Tags       []string // feature tags (for classes and finding triggers)
+	// Real: no fake adapter is registered; the batch answer names the built-in "basic" adapter and the
+	// harness server also is the storage server (GET/PUT /o/<oid>). Adapter[oid][k] then scripts the k-th
+	// storage request about oid: "ok", "retry" (503), "fatal" (404), "reset" (connection reset), "cut"
+	// (download: half of the body, then the connection is closed), "later:<secs>" (429 + Retry-After), "422".
+	Real bool
+	// StorageFirst: outcome of the very first storage request of the case, whichever object it is about.
+	StorageFirst string
+	YieldSeed    uint64
+	YieldPm      uint64
+	AddGapUs     int // producer pause between adds (microseconds), 0 = none
+	RetryScale   float64
+	Tags         []string // feature tags (for classes and finding triggers)
 }
 
 type Attempt struct {
@@ -112,6 +120,8 @@ type Record struct {
 	Inconclusive  string
 	DurationMs    int64
 	HTTPBatchReqs int
+	RealFiles     int      // real-adapter downloads: destination files present after Wait
+	BadFiles      []string // ... whose bytes are not the object's
 }
 
 type Violation struct {
@@ -233,6 +243,123 @@ type server struct {
 	last     map[string]string
 	inflight int64
 	adapter  string
+	// real-adapter cases
+	sidx     map[string]int
+	sreqs    int
+	attempts []Attempt
+	sflying  map[string]int
+}
+
+// Content is the byte string of a real-adapter object.
+func Content(seed int64, size int64) []byte {
+	b := make([]byte, size)
+	x := uint64(seed)*6364136223846793005 + 1442695040888963407
+	for i := range b {
+		x = x*6364136223846793005 + 1442695040888963407
+		b[i] = byte(x >> 33)
+	}
+	return b
+}
+
+func (s *server) obj(oid string) *Obj {
+	for i := range s.c.Objs {
+		if s.c.Objs[i].Oid == oid {
+			return &s.c.Objs[i]
+		}
+	}
+	return nil
+}
+
+// storage answers GET/PUT /o/<oid> for real-adapter cases and records each request as an Attempt.
+func (s *server) storage(w http.ResponseWriter, r *http.Request) {
+	oid := strings.TrimPrefix(r.URL.Path, "/o/")
+	s.mu.Lock()
+	k := s.sidx[oid]
+	s.sidx[oid] = k + 1
+	out := "ok"
+	if sc := s.c.Adapter[oid]; k < len(sc) && sc[k] != "" {
+		out = sc[k]
+	}
+	if s.sreqs == 0 && s.c.StorageFirst != "" {
+		out = s.c.StorageFirst
+	}
+	s.sreqs++
+	at := Attempt{Oid: oid, Begin: now(), Outcome: out, Overlap: s.sflying[oid] > 0}
+	s.sflying[oid]++
+	s.mu.Unlock()
+	finish := func(outcome string) {
+		s.mu.Lock()
+		at.End = now()
+		at.Outcome = outcome
+		s.sflying[oid]--
+		s.attempts = append(s.attempts, at)
+		s.mu.Unlock()
+	}
+	o := s.obj(oid)
+	var body []byte
+	if r.Method == "PUT" {
+		body, _ = io.ReadAll(r.Body)
+	}
+	reset := func() {
+		if hj, ok := w.(http.Hijacker); ok {
+			if conn, _, err := hj.Hijack(); err == nil {
+				if tc, ok := conn.(*net.TCPConn); ok {
+					tc.SetLinger(0)
+				}
+				conn.Close()
+			}
+		}
+	}
+	switch {
+	case o == nil:
+		w.WriteHeader(404)
+		finish("fatal")
+	case out == "retry":
+		w.WriteHeader(503)
+		finish(out)
+	case out == "fatal":
+		w.WriteHeader(404)
+		finish(out)
+	case out == "422":
+		w.WriteHeader(422)
+		finish(out)
+	case strings.HasPrefix(out, "later:"):
+		w.Header().Set("Retry-After", strings.TrimPrefix(out, "later:"))
+		w.WriteHeader(429)
+		finish(out)
+	case out == "reset":
+		finish(out)
+		reset()
+	case out == "cut" && r.Method == "GET":
+		data := Content(o.DataSeed, o.Size)
+		w.Header().Set("Content-Length", fmt.Sprint(len(data)))
+		w.WriteHeader(200)
+		w.Write(data[:len(data)/2])
+		if f, ok := w.(http.Flusher); ok {
+			f.Flush()
+		}
+		finish(out)
+		reset()
+	case r.Method == "GET":
+		data := Content(o.DataSeed, o.Size)
+		w.Header().Set("Content-Type", "application/octet-stream")
+		w.Header().Set("Content-Length", fmt.Sprint(len(data)))
+		w.WriteHeader(200)
+		_, err := w.Write(data)
+		if err != nil {
+			finish("client-went-away")
+		} else {
+			finish("ok")
+		}
+	default: // PUT
+		if string(body) == string(Content(o.DataSeed, o.Size)) {
+			finish("ok")
+			w.WriteHeader(200)
+		} else {
+			finish("bad-upload-body")
+			w.WriteHeader(400)
+		}
+	}
 }
 
 type batchReq struct {
@@ -246,6 +373,10 @@ type batchReq struct {
 func (s *server) handle(w http.ResponseWriter, r *http.Request) {
 	atomic.AddInt64(&s.inflight, 1)
 	defer atomic.AddInt64(&s.inflight, -1)
+	if strings.HasPrefix(r.URL.Path, "/o/") {
+		s.storage(w, r)
+		return
+	}
 	arrive := now()
 	body, _ := io.ReadAll(r.Body)
 	var req batchReq
@@ -406,16 +537,19 @@ var QuietWindow = 20 * time.Second
 func Run(c Case, scratch string) *Record {
 	rec := &Record{Case: c, Events: map[string]int{}, RetryCounts: map[string]int64{}, BatchObjEvts: map[string]int{}, HookAttempts: map[string]int{}, LastAnswer: map[string]string{}}
 	start := time.Now()
-	srv := &server{c: &c, asked: map[string]int{}, last: map[string]string{}, adapter: "fake"}
+	srv := &server{c: &c, asked: map[string]int{}, last: map[string]string{}, adapter: "fake", sidx: map[string]int{}, sflying: map[string]int{}}
+	if c.Real {
+		srv.adapter = "basic"
+	}
 	srv.srv = httptest.NewServer(http.HandlerFunc(srv.handle))
 	defer srv.srv.Close()
 
 	gitEnv := map[string]string{
-		"lfs.url":                     srv.srv.URL,
-		"lfs.transfer.maxretries":     fmt.Sprint(c.MaxRetries),
-		"lfs.concurrenttransfers":     fmt.Sprint(c.Concurrent),
-		"lfs.basictransfersonly":      "false",
-		"remote.origin.url":           srv.srv.URL + "/repo.git",
+		"lfs.url":                        srv.srv.URL,
+		"lfs.transfer.maxretries":        fmt.Sprint(c.MaxRetries),
+		"lfs.concurrenttransfers":        fmt.Sprint(c.Concurrent),
+		"lfs.basictransfersonly":         "false",
+		"remote.origin.url":              srv.srv.URL + "/repo.git",
 		"lfs." + srv.srv.URL + ".access": "none",
 	}
 	if c.MaxDelay >= 0 {
@@ -439,14 +573,20 @@ func Run(c Case, scratch string) *Record {
 	}
 	m := tq.NewManifest(f, client, op, "origin")
 	fa := &fakeAdapter{name: "fake", dir: dir, c: &c, idx: map[string]int{}, inflight: map[string]int{}}
-	m.RegisterNewAdapterFunc("fake", dir, func(name string, d tq.Direction) tq.Adapter { return fa })
+	if !c.Real {
+		m.RegisterNewAdapterFunc("fake", dir, func(name string, d tq.Direction) tq.Adapter { return fa })
+	}
 
 	// local files for uploads
 	paths := map[string]string{}
 	for _, o := range c.Objs {
 		p := filepath.Join(filepath.Dir(gitdir), "obj-"+o.Oid[:12])
 		if c.Upload && !o.MissingLocal {
-			os.WriteFile(p, make([]byte, o.Size), 0o644)
+			if c.Real {
+				os.WriteFile(p, Content(o.DataSeed, o.Size), 0o644)
+			} else {
+				os.WriteFile(p, make([]byte, o.Size), 0o644)
+			}
 		}
 		paths[o.Oid] = p
 	}
@@ -567,6 +707,21 @@ loop:
 	rec.Attempts = append(rec.Attempts, fa.attempts...)
 	fa.mu.Unlock()
 	srv.mu.Lock()
+	rec.Attempts = append(rec.Attempts, srv.attempts...)
+	if c.Real && rec.WaitReturned {
+		// downloads: what sits at the destination must be the object (delivered or not, never garbage)
+		for _, o := range c.Objs {
+			if c.Upload {
+				continue
+			}
+			if b, err := os.ReadFile(paths[o.Oid]); err == nil {
+				rec.RealFiles++
+				if string(b) != string(Content(o.DataSeed, o.Size)) {
+					rec.BadFiles = append(rec.BadFiles, o.Oid)
+				}
+			}
+		}
+	}
 	rec.BatchCalls = append(rec.BatchCalls, srv.calls...)
 	for k, v := range srv.last {
 		rec.LastAnswer[k] = v
